@@ -1,4 +1,5 @@
 import Proofs.C04
+import Proofs.DataRefine
 import VerifModel.Model.NcAssemble
 import VerifModel.Spec.Dataset
 import VerifModel.Spec.NcLayout
@@ -45,13 +46,13 @@ private theorem cleanArr_encArr (L : NcLayout) (n : String) (a : CArr) (h : a.ok
     subst hq
     exact h q (List.mem_of_getElem? hk)
 
-private theorem cleanArr_numVec (l : List Rat) (h : ∀ q ∈ l, okNum q) :
-    (cleanArr (numVec l)).data = l.map XR.fin := by
-  unfold cleanArr numVec
-  simp only [List.map_map]
-  apply List.map_congr_left
-  intro q hq
-  exact clean_ok q (h q hq)
+/-- a coordinate variable reads as its column: a present entry is its number, a missing entry — in
+whatever encoding — is NaN -/
+private theorem cleanArr_encVec (L : NcLayout) (n : String) (l : List Cell) (h : colOk l) :
+    (cleanArr (encVec L n l)).data = l.map cellXR := by
+  unfold encVec
+  rw [cleanArr_encArr L n ⟨[l.length], l⟩ h]
+  rfl
 
 /-! ### looking a variable up in the documented layout -/
 
@@ -115,20 +116,20 @@ local macro "lookup_tac" k:str : tactic =>
     simp [NcVars.var?, toNcVars, List.lookup_cons, List.lookup_append, lookup_optVar_ne, lookup_optVar_eq, this]))
 
 include hwf
-private theorem var_time : (toNcVars L T).var? "time" = some (numVec T.times) := by lookup_tac "time"
-private theorem var_lead : (toNcVars L T).var? "leadtime" = some (numVec T.leads) := by lookup_tac "leadtime"
-private theorem var_loc : (toNcVars L T).var? "location" = T.ids.map numVec := by lookup_tac "location"
-private theorem var_lat : (toNcVars L T).var? "lat" = T.lats.map numVec := by lookup_tac "lat"
-private theorem var_lon : (toNcVars L T).var? "lon" = T.lons.map numVec := by lookup_tac "lon"
-private theorem var_alt : (toNcVars L T).var? "altitude" = T.elevs.map numVec := by lookup_tac "altitude"
+private theorem var_time : (toNcVars L T).var? "time" = some (encVec L "time" T.times) := by lookup_tac "time"
+private theorem var_lead : (toNcVars L T).var? "leadtime" = some (encVec L "leadtime" T.leads) := by lookup_tac "leadtime"
+private theorem var_loc : (toNcVars L T).var? "location" = T.ids.map (encVec L "location") := by lookup_tac "location"
+private theorem var_lat : (toNcVars L T).var? "lat" = T.lats.map (encVec L "lat") := by lookup_tac "lat"
+private theorem var_lon : (toNcVars L T).var? "lon" = T.lons.map (encVec L "lon") := by lookup_tac "lon"
+private theorem var_alt : (toNcVars L T).var? "altitude" = T.elevs.map (encVec L "altitude") := by lookup_tac "altitude"
 private theorem var_obs : (toNcVars L T).var? "obs" = T.obs.map (encArr L "obs") := by lookup_tac "obs"
 private theorem var_fcst : (toNcVars L T).var? "fcst" = T.fcst.map (encArr L "fcst") := by lookup_tac "fcst"
 private theorem var_pit : (toNcVars L T).var? "pit" = T.pit.map (encArr L "pit") := by lookup_tac "pit"
-private theorem var_thr : (toNcVars L T).var? "threshold" = T.prob.map (fun p => numVec p.1) := by
+private theorem var_thr : (toNcVars L T).var? "threshold" = T.prob.map (fun p => encVec L "threshold" p.1) := by
   lookup_tac "threshold"
 private theorem var_cdf : (toNcVars L T).var? "cdf" = T.prob.map (fun p => encArr L "cdf" p.2) := by
   lookup_tac "cdf"
-private theorem var_qtl : (toNcVars L T).var? "quantile" = T.quant.map (fun p => numVec p.1) := by
+private theorem var_qtl : (toNcVars L T).var? "quantile" = T.quant.map (fun p => encVec L "quantile" p.1) := by
   lookup_tac "quantile"
 private theorem var_x : (toNcVars L T).var? "x" = T.quant.map (fun p => encArr L "x" p.2) := by lookup_tac "x"
 private theorem var_ens : (toNcVars L T).var? "ensemble" = T.ens.map (encArr L "ensemble") := by
@@ -188,22 +189,22 @@ private theorem mkLocs_eq : ∀ (lat id lon elev : List XR), id.length = lat.len
     have := mkLocs_eq as is os es (by simpa using h1) (by simpa using h2) (by simpa using h3)
     simp [mkLocs, zipLocs, this]
 
-private theorem metaCol_length (n : Nat) (o : Option (List Rat)) (d : Nat → Rat)
+private theorem metaCol_length (n : Nat) (o : Option (List Cell)) (d : Nat → Rat)
     (h : ∀ l, o = some l → l.length = n) : (metaCol n o d).length = n := by
   cases o with
   | none => simp [metaCol]
   | some l => simp [metaCol, h l rfl]
 
-private theorem vec_meta (V : NcVars) (name : String) (n : Nat) (o : Option (List Rat)) (d : Nat → Rat)
-    (dflt : List XR) (hv : V.var? name = o.map numVec)
-    (hok : ∀ l, o = some l → l.length = n ∧ ∀ q ∈ l, okNum q)
+private theorem vec_meta (L : NcLayout) (V : NcVars) (name : String) (n : Nat) (o : Option (List Cell))
+    (d : Nat → Rat) (dflt : List XR) (hv : V.var? name = o.map (encVec L name))
+    (hok : ∀ l, o = some l → l.length = n ∧ colOk l)
     (hd : dflt = (List.range n).map fun i => XR.fin (d i)) :
     V.vec name dflt = metaCol n o d := by
   unfold NcVars.vec
   rw [hv]
   cases o with
   | none => simp [metaCol, hd]
-  | some l => simp only [Option.map_some, metaCol]; exact cleanArr_numVec l (hok l rfl).2
+  | some l => simp only [Option.map_some, metaCol]; exact cleanArr_encVec L name l (hok l rfl).2
 
 private theorem locs_nc (L : NcLayout) (T : DenseTable) (hwf : T.WF) :
     ncLocations (toNcVars L T) =
@@ -213,17 +214,17 @@ private theorem locs_nc (L : NcLayout) (T : DenseTable) (hwf : T.WF) :
   have hd : (toNcVars L T).dim? "location" = some T.nloc := by
     simp [NcVars.dim?, toNcVars, List.lookup_cons]
   simp only [hd]
-  have hlat := vec_meta (toNcVars L T) "lat" T.nloc T.lats (fun _ => 0) (List.replicate T.nloc (.fin 0))
+  have hlat := vec_meta L (toNcVars L T) "lat" T.nloc T.lats (fun _ => 0) (List.replicate T.nloc (.fin 0))
     (var_lat L T hwf) hwf.lats_ok (by simp)
-  have hlon := vec_meta (toNcVars L T) "lon" T.nloc T.lons (fun _ => 0) (List.replicate T.nloc (.fin 0))
+  have hlon := vec_meta L (toNcVars L T) "lon" T.nloc T.lons (fun _ => 0) (List.replicate T.nloc (.fin 0))
     (var_lon L T hwf) hwf.lons_ok (by simp)
   have hlen : (metaCol T.nloc T.lats fun _ => 0).length = T.nloc :=
     metaCol_length _ _ _ fun l h => (hwf.lats_ok l h).1
   rw [hlat, hlon, hlen]
-  have hid := vec_meta (toNcVars L T) "location" T.nloc T.ids (fun i => (i : Rat))
+  have hid := vec_meta L (toNcVars L T) "location" T.nloc T.ids (fun i => (i : Rat))
     ((List.range T.nloc).map fun (i : Nat) => XR.fin (i : Rat)) (var_loc L T hwf) hwf.ids_ok rfl
   rw [hid]
-  have helev := vec_meta (toNcVars L T) "altitude" T.nloc T.elevs (fun _ => 0)
+  have helev := vec_meta L (toNcVars L T) "altitude" T.nloc T.elevs (fun _ => 0)
     ((metaCol T.nloc T.lats fun _ => 0).map fun _ => XR.fin 0) (var_alt L T hwf) hwf.elevs_ok
     (by rw [List.map_const', hlen]; simp)
   rw [helev]
@@ -291,16 +292,16 @@ private theorem others_nc (L : NcLayout) (T : DenseTable) (hwf : T.WF) :
     ((toNcVars L T).vars.map (·.1)).filterMap (oth (toNcVars L T)) =
       T.others.map fun p => (p.1, p.2.toArr) := by
   apply others_general (toNcVars L T)
-    ("time" :: "leadtime" :: ((optVar "location" (T.ids.map numVec)).map (·.1)
-        ++ (optVar "lat" (T.lats.map numVec)).map (·.1)
-        ++ (optVar "lon" (T.lons.map numVec)).map (·.1)
-        ++ (optVar "altitude" (T.elevs.map numVec)).map (·.1)
+    ("time" :: "leadtime" :: ((optVar "location" (T.ids.map (encVec L "location"))).map (·.1)
+        ++ (optVar "lat" (T.lats.map (encVec L "lat"))).map (·.1)
+        ++ (optVar "lon" (T.lons.map (encVec L "lon"))).map (·.1)
+        ++ (optVar "altitude" (T.elevs.map (encVec L "altitude"))).map (·.1)
         ++ (optVar "obs" (T.obs.map (encArr L "obs"))).map (·.1)
         ++ (optVar "fcst" (T.fcst.map (encArr L "fcst"))).map (·.1)
         ++ (optVar "pit" (T.pit.map (encArr L "pit"))).map (·.1)
-        ++ (optVar "threshold" (T.prob.map fun p => numVec p.1)).map (·.1)
+        ++ (optVar "threshold" (T.prob.map fun p => encVec L "threshold" p.1)).map (·.1)
         ++ (optVar "cdf" (T.prob.map fun p => encArr L "cdf" p.2)).map (·.1)
-        ++ (optVar "quantile" (T.quant.map fun p => numVec p.1)).map (·.1)
+        ++ (optVar "quantile" (T.quant.map fun p => encVec L "quantile" p.1)).map (·.1)
         ++ (optVar "x" (T.quant.map fun p => encArr L "x" p.2)).map (·.1)
         ++ (optVar "ensemble" (T.ens.map (encArr L "ensemble"))).map (·.1)))
     T.others (fun n a => encArr L n a) CArr.toArr
@@ -361,8 +362,13 @@ private theorem dataset_ext (A B : Dataset) (h1 : A.times = B.times) (h2 : A.lea
 was written from, whatever encodings the writer chose for the missing cells — same dimensions, location
 metadata (absent ids 0,1,2,…; absent lat / lon / altitude 0), thresholds / quantiles, every field cell by
 cell (each encoding of a missing cell reads NaN, every other number unchanged), other fields and variable
-metadata; every optional part present or absent.  (`datasetOf T` is also what the text reader must yield
-for a text file carrying `T`: C09.) -/
+metadata; every optional part present or absent.  The COORDINATE variables are covered in the same way:
+any entry of time / leadtime / location / lat / lon / altitude / threshold / quantile may be missing in the
+table, may be written in any encoding, and reads NaN (`datasetOf` maps a missing coordinate entry to NaN;
+nothing is invented in its place — in particular not unix time 0).  What a NaN coordinate means for the
+verification is `C10_missing_coordinate`.  (`datasetOf T` is also what the text reader must yield for a
+text file carrying `T`: C09 proves that for tables without missing coordinate entries; for a missing
+coordinate token the text reader deviates, see known_findings.txt.) -/
 theorem C10_same_dataset (L : NcLayout) (T : DenseTable) (hwf : T.WF) :
     (ncAssemble (toNcVars L T)).map NcInput.dataset = .ok (datasetOf T) := by
   have htime := var_time L T hwf
@@ -386,8 +392,8 @@ theorem C10_same_dataset (L : NcLayout) (T : DenseTable) (hwf : T.WF) :
   show Except.ok (NcInput.dataset _) = Except.ok _
   congr 1
   apply dataset_ext
-  · exact cleanArr_numVec _ hwf.times_ok
-  · exact cleanArr_numVec _ hwf.leads_ok
+  · exact cleanArr_encVec L "time" _ hwf.times_ok
+  · exact cleanArr_encVec L "leadtime" _ hwf.leads_ok
   · rfl
   · show V.vec "threshold" [] = _
     unfold NcVars.vec
@@ -395,14 +401,14 @@ theorem C10_same_dataset (L : NcLayout) (T : DenseTable) (hwf : T.WF) :
     simp only [datasetOf]
     cases hp : T.prob with
     | none => rfl
-    | some p => exact cleanArr_numVec _ (hwf.prob_ok p hp).1
+    | some p => exact cleanArr_encVec L "threshold" _ (hwf.prob_ok p hp).1
   · show V.vec "quantile" [] = _
     unfold NcVars.vec
     rw [hqtl]
     simp only [datasetOf]
     cases hp : T.quant with
     | none => rfl
-    | some p => exact cleanArr_numVec _ (hwf.quant_ok p hp).1
+    | some p => exact cleanArr_encVec L "quantile" _ (hwf.quant_ok p hp).1
   · exact field_nc L "obs" _ _ hobs hwf.obs_ok
   · exact field_nc L "fcst" _ _ hfcst hwf.fcst_ok
   · exact field_nc L "pit" _ _ hpit hwf.pit_ok
@@ -429,16 +435,202 @@ theorem C10_same_dataset (L : NcLayout) (T : DenseTable) (hwf : T.WF) :
   · exact hx1
 
 private def T0 : DenseTable :=
-  { times := [0], leads := [0], nloc := 1, obs := some ⟨[1, 1, 1], [some 1]⟩ }
+  { times := [some 0], leads := [some 0], nloc := 1, obs := some ⟨[1, 1, 1], [some 1]⟩ }
 
 private theorem T0_wf : T0.WF := by
-  constructor <;> simp [T0, okNum, CArr.ok, reservedNames] <;> norm_num
+  constructor <;> simp [T0, okNum, CArr.ok, colOk, reservedNames] <;> norm_num
 
 /-- one location, no lat / lon / altitude variable (the input that used to read elevation NaN): the NetCDF
 reader yields the location (0, 0, 0, 0), as the table denotes -/
 example : (ncAssemble (toNcVars ⟨fun _ _ => .masked, true⟩ T0)).map NcInput.dataset = .ok (datasetOf T0) ∧
     (datasetOf T0).locs = [⟨.fin 0, .fin 0, .fin 0, .fin 0⟩] :=
   ⟨C10_same_dataset _ T0 T0_wf, by decide +kernel⟩
+
+/-! ### a missing coordinate entry: NaN in the dataset, in no verification -/
+
+/-- `np.where(value == coordinates)[0][0]` never lands on a NaN slot -/
+private theorem indicesOf_not_nan (avail col : List XR) (k : Nat) (hk : col[k]? = some nan) :
+    k ∉ indicesOf avail col := by
+  intro hmem
+  unfold indicesOf at hmem
+  obtain ⟨v, _, hv⟩ := List.mem_map.mp hmem
+  unfold firstIdx at hv
+  have hlt : k < col.length := by
+    rcases Nat.lt_or_ge k col.length with h | h
+    · exact h
+    · rw [List.getElem?_eq_none h] at hk; cases hk
+  subst hv
+  have h1 := List.findIdx_getElem (w := hlt)
+  rw [List.getElem?_eq_getElem hlt] at hk
+  injection hk with hk
+  rw [hk] at h1
+  cases v <;> simp [XR.eqb] at h1
+
+private theorem ne_nan_of_isNan {v : XR} (h : v.isNan = false) : v ≠ nan := by
+  intro e; subst e; simp [XR.isNan] at h
+
+/-- What `Data` does with NaN coordinates (data.py:674-675, "Remove nan values"), for ANY inputs and
+options: no verified time, lead time or location id is NaN, and for every input (incl. the climatology)
+the index lists through which every array is cut (`DataS.cutFor`: the only access to the stored cells)
+never contain a position whose time / lead time / location id is NaN — the cases stored at a NaN
+coordinate take part in no verification. -/
+theorem C10_nan_coordinate_unverified (scored : List Input) (cfg : Cfg) (D : DataS)
+    (h : Data.init scored cfg = .ok D) :
+    (∀ v ∈ D.times, v ≠ nan) ∧ (∀ v ∈ D.leads, v ≠ nan) ∧ (∀ l ∈ D.locs, l.id ≠ nan) ∧
+    ∀ (i : Nat) (I : Input), D.inputs[i]? = some I →
+      (∀ k, I.times[k]? = some nan → k ∉ D.timesI.getD i []) ∧
+      (∀ k, I.leads[k]? = some nan → k ∉ D.leadsI.getD i []) ∧
+      (∀ k, (I.locs.map (·.id))[k]? = some nan → k ∉ D.locsI.getD i []) := by
+  have F := DataRefine.init_facts scored cfg D h
+  have hd := F.hDims
+  unfold Spec.DataCoord.specDims at hd
+  simp only at hd
+  split at hd
+  · cases hd
+  · split at hd
+    · cases hd
+    · split at hd
+      · cases hd
+      · injection hd with hd
+        injection hd with ht hl hx
+        refine ⟨?_, ?_, ?_, ?_⟩
+        · intro v hv
+          rw [← ht] at hv
+          exact ne_nan_of_isNan ((DataRefine.commonSet_sorted _ _).2 v (List.mem_filter.mp hv).1)
+        · intro v hv
+          rw [← hl] at hv
+          exact ne_nan_of_isNan ((DataRefine.commonSet_sorted _ _).2 v hv)
+        · intro l hl'
+          have : l.id ∈ D.locs.map (·.id) := List.mem_map_of_mem hl'
+          rw [← hx] at this
+          exact ne_nan_of_isNan ((DataRefine.commonSet_sorted _ _).2 _ this)
+        · intro i I hI
+          have e1 : D.timesI.getD i [] = indicesOf D.times I.times := by
+            rw [F.hTimesI]; simp [List.getD_eq_getElem?_getD, List.getElem?_map, hI]
+          have e2 : D.leadsI.getD i [] = indicesOf D.leads I.leads := by
+            rw [F.hLeadsI]; simp [List.getD_eq_getElem?_getD, List.getElem?_map, hI]
+          have e3 : D.locsI.getD i [] = indicesOf (D.locs.map (·.id)) (I.locs.map (·.id)) := by
+            rw [F.hLocsI]; simp [List.getD_eq_getElem?_getD, List.getElem?_map, hI]
+          rw [e1, e2, e3]
+          exact ⟨fun k hk => indicesOf_not_nan _ _ k hk, fun k hk => indicesOf_not_nan _ _ k hk,
+            fun k hk => indicesOf_not_nan _ _ k hk⟩
+
+/-- a location whose latitude / longitude / altitude is NaN is inside no `-latrange` / `-lonrange` /
+`-elevrange` (the comparisons with NaN are false) -/
+theorem C10_nan_metadata_in_no_range (r : XR × XR) : inRange r nan = false := by
+  cases r with | mk lo hi => cases lo <;> simp [inRange, XR.ge, XR.le, XR.lt, XR.gt]
+
+private theorem zipLocs_cols : ∀ (i a o e : List XR), a.length = i.length → o.length = i.length →
+    e.length = i.length →
+    (zipLocs i a o e).map (·.id) = i ∧ (zipLocs i a o e).map (·.lat) = a ∧
+    (zipLocs i a o e).map (·.lon) = o ∧ (zipLocs i a o e).map (·.elev) = e
+  | [], a, o, e, h1, h2, h3 => by
+    cases a <;> cases o <;> cases e <;> simp_all [zipLocs]
+  | _ :: _, [], _, _, h, _, _ => by simp at h
+  | _ :: _, _ :: _, [], _, _, h, _ => by simp at h
+  | _ :: _, _ :: _, _ :: _, [], _, _, h => by simp at h
+  | x :: is, _ :: as, _ :: os, _ :: es, h1, h2, h3 => by
+    obtain ⟨r1, r2, r3, r4⟩ := zipLocs_cols is as os es (by simpa using h1) (by simpa using h2) (by simpa using h3)
+    simp [zipLocs, r1, r2, r3, r4]
+
+/-- C10 for a file with missing COORDINATE entries.  Let `T` be any well-formed table, written to NetCDF
+in the documented layout with any encodings (masked / fill value, NaN, -999, > 1e30) of its missing
+entries.  The reader succeeds, its dataset is `datasetOf T`, and for every position `k`:
+  * a missing time / lead time / location id reads NaN at position `k` of that coordinate, and in every
+    `Data` object built on the file (any options, any further inputs, any climatology) position `k` is in
+    none of the index lists the arrays are cut with: the cases stored there take part in no verification;
+    the verified times / lead times / location ids contain no NaN (first conjunct block);
+  * a missing lat / lon / altitude reads NaN in the location's metadata (the location itself stays, and is
+    inside no lat / lon / elevation range: `C10_nan_metadata_in_no_range`);
+  * a missing threshold / quantile level reads NaN in `thresholds` / `quantiles`.
+No value (such as unix time 0) is invented for a missing coordinate. -/
+theorem C10_missing_coordinate (L : NcLayout) (T : DenseTable) (hwf : T.WF) :
+    ∃ I, ncAssemble (toNcVars L T) = .ok I ∧ I.dataset = datasetOf T ∧
+      (∀ k : Nat, T.times[k]? = some none → I.times[k]? = some nan) ∧
+      (∀ k : Nat, T.leads[k]? = some none → I.leads[k]? = some nan) ∧
+      (∀ l (k : Nat), T.ids = some l → l[k]? = some none → (I.locs.map (·.id))[k]? = some nan) ∧
+      (∀ l (k : Nat), T.lats = some l → l[k]? = some none → (I.locs.map (·.lat))[k]? = some nan) ∧
+      (∀ l (k : Nat), T.lons = some l → l[k]? = some none → (I.locs.map (·.lon))[k]? = some nan) ∧
+      (∀ l (k : Nat), T.elevs = some l → l[k]? = some none → (I.locs.map (·.elev))[k]? = some nan) ∧
+      (∀ p (k : Nat), T.prob = some p → p.1[k]? = some none → I.thresholds[k]? = some nan) ∧
+      (∀ p (k : Nat), T.quant = some p → p.1[k]? = some none → I.quantiles[k]? = some nan) ∧
+      ∀ (others : List Input) (cfg : Cfg) (D : DataS),
+        Data.init (I.dataInput :: others) cfg = .ok D →
+          (∀ v ∈ D.times, v ≠ nan) ∧ (∀ v ∈ D.leads, v ≠ nan) ∧ (∀ l ∈ D.locs, l.id ≠ nan) ∧
+          (∀ k : Nat, T.times[k]? = some none → k ∉ D.timesI.getD 0 []) ∧
+          (∀ k : Nat, T.leads[k]? = some none → k ∉ D.leadsI.getD 0 []) ∧
+          (∀ l (k : Nat), T.ids = some l → l[k]? = some none → k ∉ D.locsI.getD 0 []) := by
+  have hmain := C10_same_dataset L T hwf
+  cases hI : ncAssemble (toNcVars L T) with
+  | error e => rw [hI] at hmain; cases hmain
+  | ok I =>
+    rw [hI] at hmain
+    have hds : I.dataset = datasetOf T := by
+      have : Except.ok (I.dataset) = (Except.ok (datasetOf T) : Except String Dataset) := hmain
+      injection this
+    have htimes : I.times = T.times.map cellXR := congrArg Dataset.times hds
+    have hleads : I.leads = T.leads.map cellXR := congrArg Dataset.leads hds
+    have hlocs : I.locs = (datasetOf T).locs := congrArg Dataset.locs hds
+    have hthr : I.thresholds = (datasetOf T).thresholds := congrArg Dataset.thresholds hds
+    have hqtl : I.quantiles = (datasetOf T).quantiles := congrArg Dataset.quantiles hds
+    have ht : ∀ k : Nat, T.times[k]? = some none → I.times[k]? = some nan := by
+      intro k hk; rw [htimes, List.getElem?_map, hk]; rfl
+    have hl : ∀ k : Nat, T.leads[k]? = some none → I.leads[k]? = some nan := by
+      intro k hk; rw [hleads, List.getElem?_map, hk]; rfl
+    obtain ⟨c1, c2, c3, c4⟩ := zipLocs_cols (metaCol T.nloc T.ids fun i => (i : Rat))
+      (metaCol T.nloc T.lats fun _ => 0) (metaCol T.nloc T.lons fun _ => 0) (metaCol T.nloc T.elevs fun _ => 0)
+      (by rw [metaCol_length _ _ _ fun l h => (hwf.lats_ok l h).1, metaCol_length _ _ _ fun l h => (hwf.ids_ok l h).1])
+      (by rw [metaCol_length _ _ _ fun l h => (hwf.lons_ok l h).1, metaCol_length _ _ _ fun l h => (hwf.ids_ok l h).1])
+      (by rw [metaCol_length _ _ _ fun l h => (hwf.elevs_ok l h).1, metaCol_length _ _ _ fun l h => (hwf.ids_ok l h).1])
+    have hid : ∀ l (k : Nat), T.ids = some l → l[k]? = some none → (I.locs.map (·.id))[k]? = some nan := by
+      intro l k hl' hk
+      rw [hlocs]; simp only [datasetOf]; rw [c1]
+      simp only [hl', metaCol, List.getElem?_map, hk]; rfl
+    refine ⟨I, rfl, hds, ht, hl, hid, ?_, ?_, ?_, ?_, ?_, ?_⟩
+    · intro l k hl' hk
+      rw [hlocs]; simp only [datasetOf]; rw [c2]
+      simp only [hl', metaCol, List.getElem?_map, hk]; rfl
+    · intro l k hl' hk
+      rw [hlocs]; simp only [datasetOf]; rw [c3]
+      simp only [hl', metaCol, List.getElem?_map, hk]; rfl
+    · intro l k hl' hk
+      rw [hlocs]; simp only [datasetOf]; rw [c4]
+      simp only [hl', metaCol, List.getElem?_map, hk]; rfl
+    · intro p k hp hk
+      rw [hthr]; simp only [datasetOf, hp, List.getElem?_map, hk]; rfl
+    · intro p k hp hk
+      rw [hqtl]; simp only [datasetOf, hp, List.getElem?_map, hk]; rfl
+    · intro others cfg D hD
+      obtain ⟨a, b, c, d⟩ := C10_nan_coordinate_unverified _ cfg D hD
+      have hin : D.inputs[0]? = some I.dataInput := by
+        rw [(DataRefine.init_facts _ cfg D hD).hInputs]; rfl
+      obtain ⟨d1, d2, d3⟩ := d 0 I.dataInput hin
+      exact ⟨a, b, c, fun k hk => d1 k (ht k hk), fun k hk => d2 k (hl k hk),
+        fun l k hl' hk => d3 k (hid l k hl' hk)⟩
+
+/-- two times (the second missing, stored as -999), two locations (the id of the second missing, masked) -/
+private def T2 : DenseTable :=
+  { times := [some 0, none], leads := [some 0], nloc := 2, ids := some [some 3, none],
+    obs := some ⟨[2, 1, 2], [some 1, some 2, some 3, some 4]⟩ }
+
+private def L2 : NcLayout := ⟨fun n _ => if n = "time" then .m999 else .masked, true⟩
+
+private theorem T2_wf : T2.WF := by
+  constructor <;> simp [T2, okNum, CArr.ok, colOk, reservedNames] <;> norm_num
+
+/-- the hypotheses of `C10_missing_coordinate` are satisfiable with a `Data` object that exists: the file is
+read with time NaN at position 1 and id NaN at position 1, `Data` verifies the one case at (time 0, lead
+time 0, location 3) — the three cases stored at a NaN coordinate (values 2, 3, 4) are not read -/
+example : (ncAssemble (toNcVars L2 T2)).map (fun I => (I.times, I.locs.map (·.id))) = .ok ([fin 0, nan], [fin 3, nan]) ∧
+    ((ncData (toNcVars L2 T2)).toOption.map fun D => (D.times, D.locs.map (·.id))) = some ([fin 0], [fin 3]) ∧
+    ((ncData (toNcVars L2 T2)).toOption.map fun D => (D.timesI, D.locsI)) = some ([[0]], [[0]]) ∧
+    ((ncData (toNcVars L2 T2)).toOption.map fun D => (D.getScores ⟨["obs"], 0, .all⟩).toOption)
+      = some (some [[fin 1]]) := by
+  refine ⟨?_, ?_, ?_, ?_⟩ <;> decide +kernel
+
+example : ∃ I, ncAssemble (toNcVars L2 T2) = .ok I ∧ I.dataset = datasetOf T2 :=
+  let ⟨I, h1, h2, _⟩ := C10_missing_coordinate L2 T2 T2_wf
+  ⟨I, h1, h2⟩
 
 /-! ### every field is `clean` of the stored cell -/
 
@@ -845,15 +1037,17 @@ theorem C10_text2nc (R : Rounding) (D : Dataset) (hc : Convertible R D) :
 
 /-! ### non-vacuity -/
 
-/-- a table with every optional part, missing cells, two locations -/
+/-- a table with every optional part, missing cells, two locations, and a missing entry in every
+coordinate column (time, lead time, id, lat, lon, altitude, threshold, quantile level) -/
 private def T1 : DenseTable :=
-  { times := [1325376000, 1325462400], leads := [0], nloc := 2,
-    ids := some [18700, 3], lats := some [60, 59.5], lons := some [10.75, -5], elevs := some [94, 0],
+  { times := [some 1325376000, none], leads := [none], nloc := 2,
+    ids := some [some 18700, none], lats := some [none, some 59.5], lons := some [some 10.75, none],
+    elevs := some [none, some 0],
     obs := some ⟨[2, 1, 2], [some 1.5, none, some 0, none]⟩,
     fcst := some ⟨[2, 1, 2], [some 2, some 2.5, none, some (-1)]⟩,
     pit := some ⟨[2, 1, 2], [some 0.125, some 1, none, none]⟩,
-    prob := some ([0.5, 2], ⟨[2, 1, 2, 2], [some 0.25, some 1, none, some 0.5, some 0, some 0, some 1, none]⟩),
-    quant := some ([0.25], ⟨[2, 1, 2, 1], [some 1, none, some 3, some 4]⟩),
+    prob := some ([none, some 2], ⟨[2, 1, 2, 2], [some 0.25, some 1, none, some 0.5, some 0, some 0, some 1, none]⟩),
+    quant := some ([none], ⟨[2, 1, 2, 1], [some 1, none, some 3, some 4]⟩),
     ens := some ⟨[2, 1, 2, 2], [some 1, some 2, some 3, none, none, some 6, some 7, some 8]⟩,
     others := [("wind", ⟨[2, 1, 2], [some 5, none, some 7, some 8]⟩)],
     name := some "Temperature", units := some ['K'], x0 := some 0, x1 := none }
@@ -865,10 +1059,14 @@ private def L1 : NcLayout :=
     useLongName := false }
 
 private theorem T1_wf : T1.WF := by
-  constructor <;> simp [T1, okNum, CArr.ok, reservedNames] <;> norm_num
+  constructor <;> simp [T1, okNum, CArr.ok, colOk, reservedNames] <;> norm_num
 
-example : (ncAssemble (toNcVars L1 T1)).map NcInput.dataset = .ok (datasetOf T1) :=
-  C10_same_dataset L1 T1 T1_wf
+example : (ncAssemble (toNcVars L1 T1)).map NcInput.dataset = .ok (datasetOf T1) ∧
+    (datasetOf T1).times = [.fin 1325376000, .nan] ∧ (datasetOf T1).leads = [.nan] ∧
+    (datasetOf T1).locs = [⟨.fin 18700, .nan, .fin 10.75, .nan⟩, ⟨.nan, .fin 59.5, .nan, .fin 0⟩] ∧
+    (datasetOf T1).thresholds = [.nan, .fin 2] ∧ (datasetOf T1).quantiles = [.nan] :=
+  ⟨C10_same_dataset L1 T1 T1_wf, by decide +kernel, by decide +kernel, by decide +kernel, by decide +kernel,
+    by decide +kernel⟩
 
 /-- a dataset as the text reader delivers it, with ensemble members and x0 (which the script used to drop) -/
 private def D1 : Dataset :=
